@@ -162,7 +162,10 @@ def make_judges(ctx):
                 ctx.violation('read_raises', '%s(int, ...) of scaled %s (scale=%r, bias=%r) raised %s: %s' % (ev.op, R.dtype_fxp(*x.fmt()), x.scale, x.bias, type(ev.exc).__name__, str(ev.exc)[:100]), ev,
                               key='scaled.read_raises')
                 return
-            if ev.op == 'astype' and d.get('dtype') is not float:
+            if ev.op == 'astype' and d.get('dtype') is int and x.n_frac <= 0 and affine_of(x) is not None and all(
+                    (affine_of(x)[0] * k * R.lsb(x.n_frac) + affine_of(x)[1]).denominator == 1 for k in x.codes):
+                pass        # (integer valued: the floor of astype(int) changes nothing, the value is scale*code*LSB + bias whatever the order of the steps)
+            elif ev.op == 'astype' and d.get('dtype') is not float:
                 return
             if ev.op == 'get_val' and d.get('dtype') is not None:
                 return
@@ -408,6 +411,15 @@ def run_case(case, ctx):
                 _try(lambda: xa.get_val(index=0))
                 _try(lambda: xa[0]())
                 _try(lambda: xa.get_val(item=0))
+        for sc_, b_ in ((2 ** 48, 2.0 ** 50), (np.int64(2 ** 48), 2.0 ** 50), (-(2 ** 49), 0.5), (2 ** 50, 2 ** 51)):
+            xs_ = _try(lambda: Fxp(None, False, 16, 0, scale=sc_, bias=b_))
+            if xs_ is not None:
+                _try(lambda: xs_.set_val([65535, 1, 40000], raw=True))
+                _try(lambda: xs_.get_val())
+                _try(lambda: xs_.astype(float))
+                _try(lambda: xs_.astype(int))
+                _try(lambda: xs_.astype(int, item=0))
+                _try(lambda: xs_[0]())
         ctx.floor_hit(('read-huge-integer-bias',))
     arr = [float(v) for v in (vs * 3)[:3]]
     a = _try(lambda: Fxp(np.array(arr), s, w, nf, **kw))
@@ -536,6 +548,17 @@ def run_case(case, ctx):
                 _try(lambda: an.get_val(index=1))
                 _try(lambda: an.astype(int, item=0))
                 _try(lambda: an.get_val(int, item=1))
+                _try(lambda: an.get_val(item=0))
+                _try(lambda: an.astype(float, item=1))
+                _try(lambda: an.get_val(item=2))
+                _try(lambda: an[1]())
+            # the same value held in a 0-dimensional object array (what the library itself builds around a long python integer)
+            z0 = np.array(float(vs[0]), dtype=object)
+            xz = _try(lambda: Fxp(None, s, w, nf, **kwn))
+            if xz is not None:
+                _try(lambda: xz.set_val(z0))
+                _try(lambda: xz.get_val())
+            _try(lambda: Fxp(np.array(0.5, dtype=np.float16) if False else inp(vs[0]), s, w, nf, rounding=r, overflow=o, scale=np.array(np_scale), bias=np.array(np_bias)))
             ctx.floor_hit(('numpy-parameters',))
         # a NumPy integer bias at the limits of int64 (its absolute value does not exist in int64)
         for b_ in (np.int64(-2 ** 63), np.int64(2 ** 63 - 1), np.int64(-2 ** 62)):
